@@ -209,6 +209,9 @@ func (g *pkgGen) T(d int) *Node {
 			fs = append(fs, g.T(d-1))
 		}
 		g.lex = save
+		if g.r.Chance(1, 3) {
+			return Call("load-bytes", Call("to-bytes", Str(Src(fs))))
+		}
 		return Call("load-string", Str(Src(fs)))
 	case 15:
 		n := g.r.Range(1, 2)
@@ -694,8 +697,12 @@ func (m *pmodel) eval(n *Node, lex *penv) (pval, *perr) {
 			m.cur = outer
 		}
 		return v, e
-	case "load-string":
-		src, err := strconv.Unquote(args[0].Atom)
+	case "load-string", "load-bytes":
+		srcNode := args[0]
+		if head == "load-bytes" {
+			srcNode = args[0].List[1]
+		}
+		src, err := strconv.Unquote(srcNode.Atom)
 		if err != nil {
 			return pval{}, merr()
 		}
@@ -833,11 +840,21 @@ func pkgValid(n *Node) bool {
 		}
 		fl := args[0].List[1]
 		return fl.IsL && len(fl.List) == 1 && !fl.List[0].IsL && all(args[0].List[2:]) && pkgValid(args[1])
-	case "load-string":
-		if len(args) != 1 || args[0].IsL {
+	case "load-string", "load-bytes":
+		if len(args) != 1 {
 			return false
 		}
-		src, err := strconv.Unquote(args[0].Atom)
+		srcNode := args[0]
+		if head == "load-bytes" {
+			if !srcNode.IsL || len(srcNode.List) != 2 || srcNode.Head() != "to-bytes" {
+				return false
+			}
+			srcNode = srcNode.List[1]
+		}
+		if srcNode.IsL {
+			return false
+		}
+		src, err := strconv.Unquote(srcNode.Atom)
 		if err != nil {
 			return false
 		}
